@@ -113,6 +113,7 @@ fn main() {
                 "c12" => seq::c12(seed, thorough),
                 "c19" => seq::c19(seed),
                 "c06" => seq::c06(seed, thorough),
+                "c05" => seq::c05(seed, thorough),
                 _ => mon::harness_error("unknown seq check"),
             };
             println!("{}", seq::summary(&which, out, t0.elapsed().as_secs_f64()).to_string());
